@@ -109,12 +109,17 @@ impl Item {
     fn tr(&self) -> Tr {
         match self {
             Item::None => Tr::L(vec![Tr::n(0u8)]),
+            Item::Data(d) if d.len() > 2048 => Tr::L(vec![Tr::n(5u8), Tr::n(d.len() as u64), Tr::n(digest(d))]),
             Item::Data(d) => Tr::L(vec![Tr::n(1u8), Tr::b(d)]),
             Item::Trailers(t) => Tr::L(vec![Tr::n(2u8), hm_tr(t)]),
             Item::Err(c) => Tr::L(vec![Tr::n(3u8), Tr::n(*c)]),
             Item::Cap => Tr::L(vec![Tr::n(3u8), Tr::n(98u8)]),
         }
     }
+}
+/// the digest of Model/WebServer.v
+fn digest(d: &[u8]) -> u64 {
+    d.iter().fold(7u64, |h, b| (h * 31 + *b as u64 + 1) % 4294967291)
 }
 fn classify(msg: &str) -> Item {
     if msg.contains("inner-error") {
@@ -171,12 +176,47 @@ struct Seen {
     headers: HeaderMap,
     body: Vec<Item>,
 }
+/// the scripted response body with a scripted `is_end_stream` / `size_hint`
+struct EosBody {
+    inner: ScriptBody<InnerErr>,
+    /// 0 never, 1 once the script is exhausted (tonic's EncodeBody), 2 once no data frame is left
+    mode: u8,
+    /// report the exact number of remaining data bytes
+    hint: bool,
+}
+impl HttpBody for EosBody {
+    type Data = Bytes;
+    type Error = InnerErr;
+    fn poll_frame(
+        mut self: std::pin::Pin<&mut Self>,
+        cx: &mut Context<'_>,
+    ) -> Poll<Option<Result<http_body::Frame<Bytes>, InnerErr>>> {
+        std::pin::Pin::new(&mut self.inner).poll_frame(cx)
+    }
+    fn is_end_stream(&self) -> bool {
+        match self.mode {
+            1 => self.inner.evs.is_empty(),
+            2 => !self.inner.evs.iter().any(|e| matches!(e, Ev::Data(_))),
+            _ => false,
+        }
+    }
+    fn size_hint(&self) -> http_body::SizeHint {
+        if self.hint {
+            let n: usize = self.inner.evs.iter().map(|e| if let Ev::Data(d) = e { d.len() } else { 0 }).sum();
+            http_body::SizeHint::with_exact(n as u64)
+        } else {
+            http_body::SizeHint::default()
+        }
+    }
+}
 struct Rec {
-    resp: Option<(u16, HeaderMap, Vec<E>)>,
+    resp: Option<(u16, HeaderMap, Vec<E>, u8, bool)>,
     seen: Arc<Mutex<Option<Seen>>>,
+    /// read the request body the way hyper reads a body (stop when is_end_stream() is true)
+    hyper_req: bool,
 }
 impl Service<Request<tonic::body::Body>> for Rec {
-    type Response = Response<ScriptBody<InnerErr>>;
+    type Response = Response<EosBody>;
     type Error = Infallible;
     type Future = std::future::Ready<Result<Self::Response, Infallible>>;
     fn poll_ready(&mut self, _: &mut Context<'_>) -> Poll<Result<(), Infallible>> {
@@ -184,12 +224,20 @@ impl Service<Request<tonic::body::Body>> for Rec {
     }
     fn call(&mut self, req: Request<tonic::body::Body>) -> Self::Future {
         let (parts, body) = req.into_parts();
-        let items = drain(body, 100_000);
+        let items = if self.hyper_req {
+            let (mut v, by_eos) = drain_hyper(body);
+            if by_eos {
+                v.push(Item::Cap); // marker: stopped by is_end_stream (never produced otherwise here)
+            }
+            v
+        } else {
+            drain(body, 100_000)
+        };
         *self.seen.lock().unwrap() =
             Some(Seen { method: parts.method, version: parts.version, headers: parts.headers, body: items });
-        let (status, headers, evs) = self.resp.take().expect("called once");
+        let (status, headers, evs, mode, hint) = self.resp.take().expect("called once");
         let (sb, _) = ScriptBody::new(evs.iter().map(to_ev).collect());
-        let mut r = Response::new(sb);
+        let mut r = Response::new(EosBody { inner: sb, mode, hint });
         *r.status_mut() = StatusCode::from_u16(status).unwrap();
         *r.headers_mut() = headers;
         std::future::ready(Ok(r))
@@ -264,7 +312,7 @@ struct Done {
 }
 fn run_call(c: &Call) -> Done {
     let seen = Arc::new(Mutex::new(None));
-    let inner = Rec { resp: Some((c.rstatus, pairs_to_map(&c.rheaders), c.revs.clone())), seen: seen.clone() };
+    let inner = Rec { resp: Some((c.rstatus, pairs_to_map(&c.rheaders), c.revs.clone(), 0, false)), seen: seen.clone(), hyper_req: false };
     let mut svc = GrpcWebLayer::new().layer(inner);
     let (qb, _) = ScriptBody::<InnerErr>::new(c.qevs.iter().map(to_ev).collect());
     let mut req = Request::new(qb);
@@ -277,6 +325,201 @@ fn run_call(c: &Call) -> Done {
     let items = drain(body, 100_000);
     let s = seen.lock().unwrap().take();
     Done { seen: s, status: parts.status.as_u16(), headers: parts.headers, body: items }
+}
+
+/// The translated response body read by a hyper-like consumer: `is_end_stream()` is asked before
+/// the first poll and after every data frame; the consumer stops when it answers true.
+/// Returns the size_hint seen first, the frames taken, and whether is_end_stream stopped it.
+fn run_response_hyper(accept: Option<&str>, revs: &[E], mode: u8, hint: bool) -> ((u64, Option<u64>), Vec<Item>, bool) {
+    let seen = Arc::new(Mutex::new(None));
+    let inner = Rec { resp: Some((200, HeaderMap::new(), revs.to_vec(), mode, hint)), seen, hyper_req: false };
+    let mut svc = GrpcWebLayer::new().layer(inner);
+    let (qb, _) = ScriptBody::<InnerErr>::new(vec![]);
+    let mut req = Request::new(qb);
+    *req.method_mut() = Method::POST;
+    *req.version_mut() = Version::HTTP_11;
+    *req.uri_mut() = "http://example.test/pkg.Svc/Method".parse().unwrap();
+    req.headers_mut().insert("content-type", HeaderValue::from_static("application/grpc-web"));
+    if let Some(a) = accept {
+        req.headers_mut().insert("accept", HeaderValue::from_str(a).unwrap());
+    }
+    let resp = spin(svc.call(req), 1000).expect("response future ready").unwrap();
+    let body = resp.into_body();
+    let h = body.size_hint();
+    let hint_seen = (h.lower(), h.upper());
+    let mut body = Box::pin(body);
+    let mut items = vec![];
+    if body.is_end_stream() {
+        return (hint_seen, items, true);
+    }
+    for _ in 0..100_000 {
+        match spin(std::future::poll_fn(|cx| body.as_mut().poll_frame(cx)), 100_000) {
+            Err(()) => {
+                items.push(Item::Cap);
+                return (hint_seen, items, false);
+            }
+            Ok(None) => {
+                items.push(Item::None);
+                return (hint_seen, items, false);
+            }
+            Ok(Some(Ok(f))) => {
+                if f.is_data() {
+                    items.push(Item::Data(f.into_data().ok().unwrap().to_vec()));
+                    if body.is_end_stream() {
+                        return (hint_seen, items, true);
+                    }
+                } else {
+                    items.push(Item::Trailers(f.into_trailers().ok().unwrap()));
+                    return (hint_seen, items, false);
+                }
+            }
+            Ok(Some(Err(e))) => {
+                items.push(classify(&e.to_string()));
+                return (hint_seen, items, false);
+            }
+        }
+    }
+    items.push(Item::Cap);
+    (hint_seen, items, false)
+}
+
+/// hyper-like reading of any body: (frames taken, stopped by is_end_stream)
+fn drain_hyper<B>(body: B) -> (Vec<Item>, bool)
+where
+    B: HttpBody<Data = Bytes>,
+    B::Error: std::fmt::Display,
+{
+    let mut body = Box::pin(body);
+    let mut items = vec![];
+    if body.is_end_stream() {
+        return (items, true);
+    }
+    for _ in 0..100_000 {
+        match spin(std::future::poll_fn(|cx| body.as_mut().poll_frame(cx)), 100_000) {
+            Err(()) => {
+                items.push(Item::Err(98));
+                return (items, false);
+            }
+            Ok(None) => {
+                items.push(Item::None);
+                return (items, false);
+            }
+            Ok(Some(Ok(f))) => {
+                if f.is_data() {
+                    items.push(Item::Data(f.into_data().ok().unwrap().to_vec()));
+                    if body.is_end_stream() {
+                        return (items, true);
+                    }
+                } else {
+                    items.push(Item::Trailers(f.into_trailers().ok().unwrap()));
+                    return (items, false);
+                }
+            }
+            Ok(Some(Err(e))) => {
+                items.push(classify(&e.to_string()));
+                return (items, false);
+            }
+        }
+    }
+    (items, false)
+}
+
+/// kind eos.request*: a base64 text request body whose inner body reports is_end_stream once it
+/// is exhausted, read by the inner service the way hyper reads a body
+fn request_hyper_case(kind: &str, r: &mut Rng, payload: Option<&[u8]>, wire: &[u8], cuts: &[usize], mode: u8,
+                      pend: &mut Vec<Pending>, out: &mut Out) {
+    let qevs = sprinkle(r, chunks_at(wire, cuts));
+    request_hyper_evs(kind, payload, qevs, mode, pend, out);
+}
+fn request_hyper_evs(kind: &str, payload: Option<&[u8]>, qevs: Vec<E>, mode: u8, pend: &mut Vec<Pending>, out: &mut Out) {
+    let seen = Arc::new(Mutex::new(None));
+    let inner = Rec { resp: Some((200, HeaderMap::new(), vec![], 0, false)), seen: seen.clone(), hyper_req: true };
+    let mut svc = GrpcWebLayer::new().layer(inner);
+    let (sb, _) = ScriptBody::<InnerErr>::new(qevs.iter().map(to_ev).collect());
+    let mut req = Request::new(EosBody { inner: sb, mode, hint: false });
+    *req.method_mut() = Method::POST;
+    *req.uri_mut() = "http://example.test/pkg.Svc/Method".parse().unwrap();
+    req.headers_mut().insert("content-type", HeaderValue::from_static("application/grpc-web-text"));
+    let _ = spin(svc.call(req), 1000).expect("response future ready");
+    let s = seen.lock().unwrap().take().expect("inner service called");
+    let mut items = s.body;
+    let by_eos = items.last() == Some(&Item::Cap);
+    if by_eos {
+        items.pop();
+    }
+    let mut oracle = None;
+    if let Some(p) = payload {
+        if data_of(&items) != p {
+            oracle = Some(format!(
+                "a consumer that stops at is_end_stream() received {} of the {} payload bytes",
+                data_of(&items).len(),
+                p.len()
+            ));
+        }
+        if !(by_eos || items.last() == Some(&Item::None)) {
+            oracle = Some(format!("the request body did not reach its end: {:?}", items.last()));
+        }
+    }
+    out.hist("eos.request.stopped_by_is_end_stream", by_eos);
+    pend.push(Pending {
+        case: Case {
+            kind: kind.to_string(),
+            input: json!({"hyper_request": {"qevs": evs_json(&qevs), "eos_mode": mode, "payload": payload.map(hex)}}),
+            model: format!("obs_request_hyper {} {}", mode, evs_coq(&qevs)),
+            impl_obs: Tr::L(vec![items_tr(&items), Tr::bool(by_eos)]),
+            oracle,
+            nontrivial: !qevs.is_empty(),
+        },
+        py: None,
+    });
+}
+
+/// kind eos.*: a gRPC response (message bytes cut at `cuts`, then trailers) through the layer,
+/// read the way hyper reads a body.  mode 1 is judged: the trailers frame must arrive.
+fn response_hyper_case(kind: &str, r: &mut Rng, msgs: &[u8], trailers: &Pairs, cuts: &[usize], accept: Option<&str>, mode: u8, hint: bool,
+                       pend: &mut Vec<Pending>, out: &mut Out) {
+    let mut revs = sprinkle(r, chunks_at(msgs, cuts));
+    revs.push(E::T(trailers.clone()));
+    let m = pairs_to_map(trailers);
+    let listed: Pairs = m.iter().map(|(k, v)| (k.as_str().to_string(), v.as_bytes().to_vec())).collect();
+    hyper_case_revs(kind, accept, &revs, mode, hint, msgs, &listed, pend, out);
+}
+fn hyper_case_revs(kind: &str, accept: Option<&str>, revs: &[E], mode: u8, hint: bool, msgs: &[u8], listed: &Pairs,
+                   pend: &mut Vec<Pending>, out: &mut Out) {
+    let (hs, items, by_eos) = run_response_hyper(accept, revs, mode, hint);
+    let text = is_text(accept.map(|a| a.as_bytes()));
+    let chunks: Vec<String> = items.iter().filter_map(|i| if let Item::Data(x) = i { Some(hex(x)) } else { None }).collect();
+    let delivered: usize = items.iter().map(|i| if let Item::Data(x) = i { x.len() } else { 0 }).sum();
+    let judged = mode != 2;
+    let mut oracle = None;
+    if judged && !(by_eos || items.last() == Some(&Item::None)) {
+        oracle = Some(format!("the consumer did not reach the end: {:?}", items.last()));
+    }
+    out.hist("eos.response.mode", mode);
+    out.hist("eos.response.stopped_by_is_end_stream", by_eos);
+    out.hist("eos.response.size_hint_upper_below_delivered", matches!(hs.1, Some(u) if (u as usize) < delivered));
+    pend.push(Pending {
+        case: Case {
+            kind: kind.to_string(),
+            input: json!({"hyper": {"accept": accept, "revs": evs_json(revs), "eos_mode": mode, "hint": hint,
+                                    "msgs": hex(msgs), "trailers": pairs_json(listed)}}),
+            model: format!(
+                "obs_response_hyper {} {} {} {}",
+                mode,
+                coq_bool(hint),
+                if text { "Base64" } else { "NoEnc" },
+                evs_coq(revs)
+            ),
+            impl_obs: Tr::L(vec![
+                Tr::L(vec![Tr::n(hs.0), Tr::opt(hs.1.map(Tr::n))]),
+                items_tr(&items),
+                Tr::bool(by_eos),
+            ]),
+            oracle,
+            nontrivial: true,
+        },
+        py: if judged { Some(json!({"text": text, "chunks": chunks, "msgs": hex(msgs), "trailers": pairs_json(listed)})) } else { None },
+    });
 }
 
 // what the property says about the four cases, computed without tonic
@@ -911,12 +1154,33 @@ fn main() {
         let v: Value = serde_json::from_str(&std::fs::read_to_string(f).unwrap()).unwrap();
         let kind = v["kind"].as_str().unwrap_or("replay").to_string();
         let inp = &v["input"];
+        if let Some(h) = inp.get("hyper_request") {
+            // the script is replayed as it is (no further Pending is sprinkled: mode 0 of sprinkle
+            // is not guaranteed, so the events are fed directly)
+            let qevs = evs_from_json(&h["qevs"]);
+            let payload = h["payload"].as_str().map(unhex);
+            request_hyper_evs(&kind, payload.as_deref(), qevs, h["eos_mode"].as_u64().unwrap_or(1) as u8, &mut pend, &mut out);
+        } else if let Some(h) = inp.get("hyper") {
+            let revs = evs_from_json(&h["revs"]);
+            hyper_case_revs(
+                &kind,
+                h["accept"].as_str(),
+                &revs,
+                h["eos_mode"].as_u64().unwrap_or(1) as u8,
+                h["hint"].as_bool().unwrap_or(false),
+                &unhex(h["msgs"].as_str().unwrap_or("")),
+                &pairs_from_json(&h["trailers"]),
+                &mut pend,
+                &mut out,
+            );
+        } else {
         let c = Call::from_json(&inp["call"]);
         let p = Promise {
             req_payload: inp["req_payload"].as_str().map(unhex),
             resp: inp.get("resp").filter(|x| !x.is_null()).map(|x| (unhex(x["msgs"].as_str().unwrap()), pairs_from_json(&x["trailers"]))),
         };
         do_call(&kind, &c, &p, &mut pend, &mut out);
+        }
     } else {
         let t = a.thorough;
         corpus(&mut r, &mut pend, &mut out);
@@ -973,6 +1237,80 @@ fn main() {
         }
         for _ in 0..n_obs {
             observe(&mut r, &mut pend, &mut out);
+        }
+        // ---- Body::is_end_stream / size_hint as hyper uses them -----------------------------------
+        let n_eos = if t { 2000 } else { 200 };
+        for i in 0..n_eos {
+            let m = gen_msgs(&mut r);
+            let tl = gen_trailers(&mut r);
+            let cuts = random_cuts(&mut r, m.len());
+            let acc = *r.pick(&[None, Some(WEB_TYPES[0]), Some(WEB_TYPES[2]), Some(WEB_TYPES[3])]);
+            match i % 5 {
+                0 => response_hyper_case("observe.eos_response_inner_breaks_contract", &mut r, &m, &tl, &cuts, acc, 2, false, &mut pend, &mut out),
+                1 => response_hyper_case("observe.size_hint_exact_inner", &mut r, &m, &tl, &cuts, acc, 1, true, &mut pend, &mut out),
+                2 => response_hyper_case("eos.response_never", &mut r, &m, &tl, &cuts, acc, 0, false, &mut pend, &mut out),
+                _ => response_hyper_case("eos.response", &mut r, &m, &tl, &cuts, acc, 1, false, &mut pend, &mut out),
+            }
+        }
+        for _ in 0..n_eos {
+            let p = gen_msgs(&mut r);
+            let w = b64(&p);
+            let cuts = random_cuts(&mut r, w.len());
+            if r.chance(3, 4) {
+                request_hyper_case("eos.request_text", &mut r, Some(&p), &w, &cuts, 1, &mut pend, &mut out);
+            } else {
+                // leftover characters at EOF: is_end_stream must stay false until the error is out
+                let mut w2 = w.clone();
+                w2.extend(&b"QUJ"[..r.range(1, 3) as usize]);
+                request_hyper_case("observe.eos_request_text_leftover", &mut r, None, &w2, &cuts, 1, &mut pend, &mut out);
+            }
+        }
+        // ---- frame lengths >= 65536, chunks above 8 KiB (BUFFER_SIZE) ------------------------------
+        let t0 = vec![(s("grpc-status"), b"0".to_vec())];
+        for (n, fill) in [(65_536usize, 0u8), (70_000, 0), (65_535, 0), (66_000, 7)] {
+            // response: header chunk, payload in chunks of 9000 / 20000 / rest bytes
+            let msgs = frame(0, &vec![fill; n]);
+            let mut cuts = vec![5usize, 5 + 9_000, 5 + 29_000];
+            cuts.retain(|c| *c < msgs.len());
+            for acc in [Some(WEB_TYPES[0]), Some(WEB_TYPES[2])] {
+                response_case("response.big_frame", &mut r, &msgs, &t0, &cuts, acc, false, &mut pend, &mut out);
+            }
+            // binary request with the same bytes
+            request_case("request.big_frame_binary", &mut r, &msgs, false, &cuts, false, &mut pend, &mut out);
+        }
+        // text request: 49152 zero bytes after a header chunk: the base64 text is a run of 'A';
+        // chunks of 20 KiB and 8193 characters, cut inside a quantum
+        for n in [49_152usize - 5, 65_536] {
+            let mut p = vec![0u8, 0, 0, 0, 0];
+            p[1..5].copy_from_slice(&(n as u32).to_be_bytes());
+            // a payload of zeros and a header whose own bytes are part of the same 3-byte groups
+            p.extend(vec![0u8; n]);
+            let wire_len = b64(&p).len();
+            let cuts: Vec<usize> = [9usize, 9 + 20_481, 9 + 20_481 + 8_193].into_iter().filter(|c| *c < wire_len).collect();
+            request_case("request.big_frame_text", &mut r, &p, true, &cuts, false, &mut pend, &mut out);
+        }
+        // ---- unpadded text requests (the Indifferent engine would accept them, the EOF check does not)
+        let n_unp = if t { 400 } else { 60 };
+        for _ in 0..n_unp {
+            let mut p = gen_msgs(&mut r);
+            if p.len() % 3 == 0 {
+                p.push(9);
+            }
+            let mut w = b64(&p);
+            while w.last() == Some(&b'=') {
+                w.pop();
+            }
+            let cuts = random_cuts(&mut r, w.len());
+            let c = Call {
+                method: s("POST"),
+                version: 2,
+                headers: vec![(s("content-type"), WEB_TYPES[2].as_bytes().to_vec())],
+                qevs: sprinkle(&mut r, chunks_at(&w, &cuts)),
+                rstatus: 200,
+                rheaders: vec![],
+                revs: vec![E::T(t0.clone())],
+            };
+            do_call("observe.text_request_unpadded", &c, &Promise::default(), &mut pend, &mut out);
         }
     }
 
